@@ -1102,7 +1102,7 @@ func off[S any, F any](s *S, f *F) uintptr { return uintptr(unsafe.Pointer(f)) -
             'float64': ('MyF', 'func(a float64) MyF { return MyF(a) * 2 }', 'func(b MyF) float64 { return float64(b) / 2 }', ['MyF(0)', 'MyF(3)', 'MyF(-4.5)']),
         }
         bimapx = {'string': ('BiMapS', 'MyStr', ['MyStr("")', 'MyStr("q")', 'MyStr("zz")']), 'MyStr': ('BiMapS', 'string', ['""', '"a"', '"bc"']),
-                  '[]byte': ('BiMapB', 'MyBytes', ['MyBytes(nil)', 'MyBytes{1}', 'MyBytes("ab")']), 'MyBytes': ('BiMapB', '[]byte', ['[]byte(nil)', '[]byte{7}', '[]byte("cd")']),
+                  '[]byte': ('BiMapB', 'MyBytes', ['MyBytes(nil)', 'MyBytes{1}', 'MyBytes{}', 'MyBytes("ab")', 'make(MyBytes, 0, 8)']), 'MyBytes': ('BiMapB', '[]byte', ['[]byte(nil)', '[]byte{7}', '[]byte{}', '[]byte("cd")', 'make([]byte, 0, 8)']),
                   'int8': ('BiMapI', 'int64', ['0', '-128', '127', '9']), 'int32': ('BiMapI', 'MyInt', ['MyInt(0)', 'MyInt(-5)', 'MyInt(1 << 30)']),
                   'MyI8': ('BiMapI', 'int', ['0', '-128', '127']), 'int': ('BiMapI', 'int64', ['0', '-1', '1 << 40']),
                   'float32': ('BiMapF', 'float64', ['0', '1.5', '-2.25']), 'MyF': ('BiMapF', 'float64', ['0', '2.5', '-1e9'])}
